@@ -23,16 +23,13 @@ Day(t) == t \div 86400
 LastOf(s) == s[Len(s)]
 Range(s) == {s[i] : i \in 1..Len(s)}
 
-\* stable insertion sort by time: sorted(events) with IEvent.__lt__ comparing times only
-RECURSIVE InsertSorted(_, _)
-InsertSorted(e, s) ==
-    IF s = <<>> THEN <<e>>
-    ELSE IF e.t < Head(s).t THEN <<e>> \o s
-    ELSE <<Head(s)>> \o InsertSorted(e, Tail(s))
-
-RECURSIVE SortAcc(_, _)
-SortAcc(evs, acc) == IF evs = <<>> THEN acc ELSE SortAcc(Tail(evs), InsertSorted(Head(evs), acc))
-SortEv(evs) == SortAcc(evs, <<>>)
+\* sorted(events) with IEvent.__lt__ comparing times only: Python's sort is stable, so events sharing a stamp keep their
+\* insertion order.  (Sorting positions by (time, position) - a total order - and materialising the result keeps this
+\* O(n^2) in TLC even for streams of a thousand events.)
+SortEv(evs) ==
+    LET idx == SortSeq([i \in 1..Len(evs) |-> i],
+                       LAMBDA a, b : evs[a].t < evs[b].t \/ (evs[a].t = evs[b].t /\ a < b))
+    IN  [k \in 1..Len(evs) |-> evs[idx[k]]] \o <<>>
 
 RECURSIVE Concat(_)
 Concat(ss) == IF ss = <<>> THEN <<>> ELSE Head(ss) \o Concat(Tail(ss))
@@ -48,13 +45,14 @@ Kept(cfg) == SelectSeq(SortEv(cfg.events), LAMBDA e : KeptEv(cfg, e))
 IsLatentEv(cfg, e) ==
     LET i == SlotIdx(cfg.grid, e.t) IN i > 1 /\ e.t - cfg.grid[i - 1] <= cfg.lat
 
-\* _create_partitions: one latent and one non-latent batch per grid index
+\* _create_partitions: one latent and one non-latent batch per grid index.  Every kept event is tagged once with its slot and
+\* its side (the tagged sequence is materialised by the concatenation), then the batches are selections of that sequence.
 Partitions(cfg) ==
     LET kept == Kept(cfg)
-    IN  [L |-> [i \in 1..Len(cfg.grid) |->
-                    SelectSeq(kept, LAMBDA e : SlotIdx(cfg.grid, e.t) = i /\ IsLatentEv(cfg, e))],
-         N |-> [i \in 1..Len(cfg.grid) |->
-                    SelectSeq(kept, LAMBDA e : SlotIdx(cfg.grid, e.t) = i /\ ~IsLatentEv(cfg, e))]]
+        tagd == [k \in 1..Len(kept) |-> [e |-> kept[k], s |-> SlotIdx(cfg.grid, kept[k].t), l |-> IsLatentEv(cfg, kept[k])]] \o <<>>
+        pick(i, lat) == LET x == SelectSeq(tagd, LAMBDA r : r.s = i /\ r.l = lat) IN [j \in 1..Len(x) |-> x[j].e]
+    IN  [L |-> [i \in 1..Len(cfg.grid) |-> pick(i, TRUE)],
+         N |-> [i \in 1..Len(cfg.grid) |-> pick(i, FALSE)]]
 
 \* ascending sequence of the elements of a finite set of integers
 RECURSIVE SeqOfSet(_)
@@ -63,9 +61,9 @@ SeqOfSet(S) == IF S = {} THEN <<>>
 
 \* _reset: event-bearing timesteps (grid indices) inside the fold, ascending
 FoldSteps(cfg, part) ==
-    SeqOfSet({i \in 1..Len(cfg.grid) :
-                /\ (part.L[i] # <<>> \/ part.N[i] # <<>>)
-                /\ cfg.fstart <= cfg.grid[i] /\ cfg.grid[i] <= cfg.fend})
+    SelectSeq([i \in 1..Len(cfg.grid) |-> i],
+              LAMBDA i : /\ (part.L[i] # <<>> \/ part.N[i] # <<>>)
+                         /\ cfg.fstart <= cfg.grid[i] /\ cfg.grid[i] <= cfg.fend)
 
 \* start positions (1-based) offered to the random draw: steps[: -(length - 1)] with length = eplen + 1
 ValidStarts(cfg, fsteps) == IF cfg.eplen = 0 THEN {1} ELSE 1..(Len(fsteps) - cfg.eplen)
@@ -78,7 +76,7 @@ Batch(cfg, part, steps, k) ==
     LET g == steps[k]
     IN  IF k = 1 /\ ~cfg.markov
         THEN LET origin == IF cfg.warmup >= 0 THEN cfg.grid[g] - cfg.warmup ELSE -2000000000
-                 idx == SeqOfSet({i \in 1..g : origin <= cfg.grid[i]})
+                 idx == SelectSeq([i \in 1..g |-> i], LAMBDA i : origin <= cfg.grid[i])
              IN  [L |-> Concat([j \in 1..Len(idx) |-> part.L[idx[j]]]),
                   N |-> Concat([j \in 1..Len(idx) |-> part.N[idx[j]]])]
         ELSE [L |-> part.L[g], N |-> part.N[g]]
